@@ -121,6 +121,34 @@ CHECKS = {
             'Faults at every mutating statement of evolve() incl. '
             'bookkeeping; statement attribution by generated table '
             'ownership.', '3/C17'),
+    'C08': ('exploration',
+            'offline log checker: recorded run histories (signals, Evolution '
+            'rows, outcomes) against an executable model of the applied-log',
+            'Random schedules of real runs against one database file are '
+            'recorded and every run is checked against the model: executed '
+            'at most once, recorded exactly once with the right version, '
+            'nothing recorded by failed runs, fresh installs execute '
+            'nothing.',
+            'Clean edit subset; wipe/mark only as consistent pairs.',
+            '3/C08'),
+    'C12': ('exploration',
+            'gate monitor: harness-side reachability by one-at-a-time '
+            'simulation vs observed outcome, statement trace, file hash and '
+            'bookkeeping rows of `evolve --execute`',
+            'Valid generated evolutions are perturbed; whenever the '
+            'perturbed evolution does not reach the current models the '
+            'command must fail with an evolution error before any SQL and '
+            'leave file, rows and bookkeeping untouched.',
+            'Reachability is decided with the repository\'s own simulation '
+            'primitives, as the property defines it.', '3/C12'),
+    'C14': ('exploration',
+            'differential monitoring across processes: --sql/--hint output '
+            'under 5 hash seeds, preview vs traced execution per app',
+            'Preview output of five interpreters with different '
+            'PYTHONHASHSEED must be byte-identical and equal, statement by '
+            'statement with parameters substituted, to what --execute issues '
+            'between the app\'s applying/applied signals.',
+            'SQLite; upgrades whose execution fails are skipped.', '3/C14'),
 }
 
 NOT_YET = 'check under construction (round 1)'
